@@ -21,7 +21,7 @@ ASSUMPTIONS = [
     "whether $v also reports #enter/#exit is not asserted; externals (helper globals) are filtered out",
     "the instrumented set is observed through a second, non-tooling overlay on f > $w",
 ]
-BOUNDS = {"quick": {"sites": 3, "annotation_options": 10}, "thorough": {"sites": 4, "annotation_options": 12}}
+BOUNDS = {"quick": {"sites": 3, "annotation_options": "14 (5 at the third site)"}, "thorough": {"sites": 4, "annotation_options": "17 (5 at the last site)"}}
 
 # (source text of the annotation, set of tag names it carries)
 ANN_QUICK = [
@@ -35,7 +35,15 @@ ANN_QUICK = [
     ("tag.B & tag.A & tag.A", frozenset("AB")),
     ('"@C"', frozenset("C")),
     ("tag.C & tag.A", frozenset("AC")),
+    # string sets spelled with other spacing around the ampersand
+    ('"@A&@B"', frozenset("AB")),
+    ('"@C& @A  &  @B"', frozenset("ABC")),
+    # a tag set that has a name (AB = tag.A & tag.B at module level), used as it is and extended
+    ("AB", frozenset("AB")),
+    ("AB & tag.C", frozenset("ABC")),
 ]
+# the third site takes a subset of the options (the full product is 14^3 programs)
+ANN_LAST_SITE = [0, 2, 5, 12, 13]
 ANN_THOROUGH = ANN_QUICK + [('"@B"', frozenset("B")), ('"@A&@A"', frozenset("A")), ("tag.B & tag.C", frozenset("BC"))]
 TAGS = "ABCD"
 
@@ -44,7 +52,8 @@ def programs(tier):
     anns = ANN_QUICK if tier == "quick" else ANN_THOROUGH
     nsites = BOUNDS[tier]["sites"]
     sites = ["x", "a", "b"] if nsites == 3 else ["x", "y", "a", "b"]
-    for combo in itertools.product(range(len(anns)), repeat=len(sites)):
+    last = ANN_LAST_SITE
+    for combo in itertools.product(*([range(len(anns))] * (len(sites) - 1) + [last])):
         for reassign in (False, True):
             yield tuple(zip(sites, combo)), reassign
 
@@ -68,7 +77,7 @@ def render(prog, tier):
         lines.append("    a = E(3, a + 1)")
     lines.append("    return E(99, (a, b))")
     tagmap = {s: d[s][1] for s in d}
-    return "from ptera import tag\n" + "\n".join(lines) + "\n", tagmap
+    return "from ptera import tag\nAB = tag.A & tag.B\n" + "\n".join(lines) + "\n", tagmap
 
 
 def units(tier):
@@ -187,8 +196,9 @@ def check_program(prog, tier, part):
                 want = sorted({n for n, v, tags in seq if T in tags})
                 if inst != want:
                     report("wrong-instrumented-set", sel, f"interactions fired for {inst!r}; only {want!r} carry @{T}")
-        for vname in names:
-            sel = f"f > {vname}:@{T}"
+        for vname, alias in [(n, False) for n in names] + [(n, True) for n in names]:
+            # with an alias the tag still applies to the captured variable: `v as w:@T` is `(v as w):@T`
+            sel = f"f > {vname} as w:@{T}" if alias else f"f > {vname}:@{T}"
             case(sel)
             res, _ = run_probe(ns, sel, x)
             expn = [(n, v) for n, v, tags in seq if n == vname and T in tags]
@@ -224,6 +234,7 @@ def check_program(prog, tier, part):
 
 FUNC_SRC = '''
 from ptera import tag, tooled
+AB = tag.A & tag.B
 
 @tooled
 def f(x){rf}:
@@ -295,6 +306,23 @@ def check_algebra(part):
                         f"match_tag({T}, {form} of {t}) = {not want}, expected {want}", tags=["algebra"]))
         part["outcomes"][f"algebra:{len(set(t))}"] += 1
         part["nontrivial"] += 1
+    # building a larger set leaves the operands as they were (tag sets are values)
+    for t in tuples:
+        if len(t) < 3:
+            continue
+        part["cases"] += 1
+        part["evaluations"] += 1
+        part["steps"] += 1
+        left = getattr(tag, t[0]) & getattr(tag, t[1])
+        right = getattr(tag, t[2]) & getattr(tag, t[-1])
+        both = left & right
+        both2 = left & getattr(tag, t[2])
+        for T in alphabet:
+            for nm, o, members in (("left operand", left, set(t[:2])), ("right operand", right, {t[2], t[-1]})):
+                if match_tag(getattr(tag, T), o) != (T in members):
+                    part["violations"].append(violation(
+                        PROP, "tag-algebra-aliasing", {"tags": list(t), "query": T, "operand": nm},
+                        f"after building ({t[0]} & {t[1]}) & ({t[2]} & {t[-1]}), the {nm} matches {T}: {T not in members}", tags=["algebra"]))
     # order and repetition are irrelevant: equal sets <=> equal (==) tag objects, for sets of >= 2 tags
     for t1, t2 in itertools.combinations(tuples, 2):
         s1, s2 = set(t1), set(t2)
